@@ -62,7 +62,9 @@ class TemplateMaskCache:
     def get(self, backend: Backend) -> tuple[_Template, _Mask] | None:
         if out := self._dict.get(backend):
             return out
-        if val := next(iter(self._dict.values()), None):
+        # NOTE: take a snapshot of the values. Other threads may insert a new item
+        # while this method is running.
+        if val := next(iter(list(self._dict.values())), None):
             self._dict[backend] = out = backend.asarray(val[0]), backend.asarray(val[1])
             return out
         return None
